@@ -666,7 +666,12 @@ def run_contract(table, registry, contract, feas_timeout_ms=2000, max_paths=400)
         if contract.closure_vars:
             cl = Frame(None, fi.module)
             for vn, inp in contract.closure_vars.items():
-                cl.locals[vn] = vals[inp]
+                if isinstance(inp, str) and inp.startswith('@'):
+                    # a sibling nested function of the enclosing function, closed over the same variables
+                    sib = table.function(contract.target.rsplit('.', 1)[0] + '.<' + inp[1:] + '>')
+                    cl.locals[vn] = FuncVal(sib, cl)
+                else:
+                    cl.locals[vn] = vals[inp]
             fv = FuncVal(fv.fi, cl, fv.defaults, fv.kwdefaults)
         outcome = {'kind': None}
         try:
